@@ -130,7 +130,7 @@ func c37CheckWorld(c *core.Ctx, w b6.World, kind string, witness any) {
 }
 
 var c37Injections = []string{"path-1pt", "path-missing-point", "closed-clockwise", "closed-bowtie", "closed-2-distinct", "area-missing-path",
-	"area-open-path", "area-of-invalid-path", "area-of-clockwise-path", "path-all-missing"}
+	"area-open-path", "area-of-invalid-path", "area-of-clockwise-path", "path-all-missing", "area-open-latlng-path", "area-closed-latlng-path"}
 
 func init() {
 	var required []string
@@ -142,7 +142,7 @@ func init() {
 		ID:        "C37",
 		Title:     "Every feature in a world is valid",
 		Technique: "invariant walk: every feature enumerated from built and edited worlds is re-validated by an independent validity predicate",
-		Rule: "case = (world kind basic builder / compact builder / basic-mutable / mutable-overlay, a valid generated feature set plus 1-4 injected invalid features of 10 kinds, " +
+		Rule: "case = (world kind basic builder / compact builder / basic-mutable / mutable-overlay, a valid generated feature set plus 1-4 injected features of 12 kinds (11 invalid, one valid control: an area over a path closed by lat/lng literals), " +
 			"in source order or shuffled; for mutable kinds the invalid features arrive as AddFeature calls inside an edit history); distinct = kind + features + injections; " +
 			"non-trivial = at least one injected feature was dropped or rejected",
 		Assumptions: []string{"golang/geo Loop.Validate and Loop.Area decide loop validity and orientation", "clockwise closed paths may be inverted by builders (then they must be counter-clockwise in the world)"},
@@ -232,6 +232,22 @@ func init() {
 					a := areaOf(p)
 					injected = append(injected, p, a)
 					invalidIDs = append(invalidIDs, a.ID)
+				case "area-open-latlng-path", "area-closed-latlng-path":
+					// a path whose points are lat/lng literals, not references: open (invalid for an area) or closed (valid)
+					p := &wm.Spec{ID: g.NewID(b6.FeatureTypePath, b6.NamespaceOSMWay), Tags: g.RandomTags(1)}
+					k := r.Range(3, 5)
+					for j := 0; j < k; j++ {
+						a := 2 * math.Pi * float64(j) / float64(k)
+						p.Path = append(p.Path, wm.Elem{LL: g.Place(off+int64(2500*math.Sin(a)), off+int64(2500*math.Cos(a)))})
+					}
+					a := areaOf(p)
+					if inj == "area-closed-latlng-path" {
+						p.Path = append(p.Path, p.Path[0])
+						injected = append(injected, p, a)
+					} else {
+						injected = append(injected, p, a)
+						invalidIDs = append(invalidIDs, a.ID)
+					}
 				case "area-of-invalid-path":
 					ps, ring := g.Ring(off, off, 3000, 4, false)
 					ring.Path[1], ring.Path[2] = ring.Path[2], ring.Path[1]
